@@ -31,6 +31,56 @@ type runSpec struct {
 	N     int   `json:"workers"`
 	Roots []int `json:"roots"`
 	Shape int   `json:"shape"`
+	// Items: how item i is presented to Add. 0: the int i; 1: ints, but item NilItem is the nil interface
+	// value (an item like any other: Add takes any); 2: strings; 3: pointers, item NilItem a typed nil pointer
+	Items   int `json:"item_kind"`
+	NilItem int `json:"nil_item"`
+}
+
+type inode struct{ i int }
+
+var inodes [256]*inode
+
+func init() {
+	for i := range inodes {
+		inodes[i] = &inode{i}
+	}
+}
+
+func enc(spec runSpec, i int) any {
+	switch spec.Items {
+	case 1:
+		if i == spec.NilItem {
+			return nil
+		}
+	case 2:
+		return fmt.Sprintf("item-%d", i)
+	case 3:
+		if i == spec.NilItem {
+			return (*inode)(nil)
+		}
+		return inodes[i]
+	}
+	return i
+}
+
+func dec(spec runSpec, item any) (int, bool) {
+	switch v := item.(type) {
+	case nil:
+		return spec.NilItem, spec.Items == 1
+	case int:
+		return v, spec.Items <= 1 && !(spec.Items == 1 && v == spec.NilItem)
+	case string:
+		var i int
+		_, err := fmt.Sscanf(v, "item-%d", &i)
+		return i, err == nil && spec.Items == 2
+	case *inode:
+		if v == nil {
+			return spec.NilItem, spec.Items == 3
+		}
+		return v.i, spec.Items == 3 && v.i != spec.NilItem
+	}
+	return -1, false
 }
 
 type runViolation struct {
@@ -161,7 +211,7 @@ func oneRun(spec runSpec, out *batchOut) {
 	omu := &outMu
 	var w par.Work
 	for _, r := range spec.Roots {
-		w.Add(r)
+		w.Add(enc(spec, r))
 	}
 	viol := func(kind, detail string) {
 		omu.Lock()
@@ -175,7 +225,10 @@ func oneRun(spec runSpec, out *batchOut) {
 		os.Exit(0)
 	}
 	f := func(item any) {
-		i := item.(int)
+		i, ok := dec(spec, item)
+		if !ok || i < 0 || i >= spec.M {
+			viol("foreign-item", fmt.Sprintf("f was handed %#v (%T), which is not an item that was added", item, item))
+		}
 		if atomic.LoadInt64(&returned) != 0 {
 			atomic.AddInt64(&lateCalls, 1)
 			viol("call-after-return", fmt.Sprintf("f(%d) started after Do had returned", i))
@@ -205,7 +258,7 @@ func oneRun(spec runSpec, out *batchOut) {
 			if atomic.LoadInt64(&inflight) < int64(spec.N) {
 				atomic.AddInt64(&idleAdds, 1)
 			}
-			w.Add(c)
+			w.Add(enc(spec, c))
 			if k%2 == 0 && (spec.Shape != 5 || x%5 == 0) {
 				perturb(x >> uint(k+3))
 			}
@@ -271,6 +324,10 @@ func genSpec(rng *rand.Rand) runSpec {
 	s := runSpec{Seed: rng.Int63(), Shape: rng.Intn(6)}
 	s.M = []int{1, 2, 3, 5, 8, 20, 60, 200}[rng.Intn(8)]
 	s.N = []int{1, 2, 3, 4, 8, 64}[rng.Intn(6)]
+	if rng.Intn(3) == 0 {
+		s.Items = 1 + rng.Intn(3)
+		s.NilItem = rng.Intn(s.M)
+	}
 	nr := 1 + rng.Intn(4)
 	for i := 0; i < nr; i++ {
 		s.Roots = append(s.Roots, rng.Intn(s.M))
@@ -347,7 +404,7 @@ func main() {
 		return
 	}
 	vlib.Main("C09", "exploration", 15*time.Minute, func(r *vlib.Run) {
-		r.Rule("runs of Work.Do over deterministic item graphs (1-200 items; shapes: random fan-out with duplicates/self/back edges, chain, wide fan with back-edges, binary tree with duplicate adds, bursts, rendezvous fan: one call adds min(n,items)-1 items back to back and all these calls wait for each other, so a lost wake-up is a deadlock), 0-5 roots added before Do (with duplicates; one run in 25 adds nothing at all), n in {1,2,3,4,8,64}; f perturbs itself (Gosched / spin / sleep) at entry, between Adds and at exit; each batch runs in a child process, once in a non-race build (the runtime's deadlock detector is the termination oracle) and once in a race build (watchdog + goroutine-dump classification), GOMAXPROCS in {1,2,4,16}. Distinct non-trivial = distinct item start-order signatures observed.")
+		r.Rule("runs of Work.Do over deterministic item graphs (1-200 items; shapes: random fan-out with duplicates/self/back edges, chain, wide fan with back-edges, binary tree with duplicate adds, bursts, rendezvous fan: one call adds min(n,items)-1 items back to back and all these calls wait for each other, so a lost wake-up is a deadlock), 0-5 roots added before Do (with duplicates; one run in 25 adds nothing at all), n in {1,2,3,4,8,64}; items are ints, in a third of the runs strings, pointers (one of them a typed nil) or ints with one item being the nil interface value; f perturbs itself (Gosched / spin / sleep) at entry, between Adds and at exit; each batch runs in a child process, once in a non-race build (the runtime's deadlock detector is the termination oracle) and once in a race build (watchdog + goroutine-dump classification), GOMAXPROCS in {1,2,4,16}. Distinct non-trivial = distinct item start-order signatures observed.")
 		r.Assume("interleavings are sampled, not enumerated (the statement's quantifier asks for a controlled scheduler, which is a different technique): a bug that needs one specific rare order can be missed")
 		base := vlib.Scratch()
 		build := os.Getenv("VERIF_BUILD")
